@@ -447,11 +447,11 @@ def run(env: Env) -> Outcome:
     if env.replay is not None:
         cases.append(env.replay["payload"]["case"])
     cases += load_corpus()
-    n = env.budget(1200, 26000)
+    n = env.budget(800, 16000)
     for i in range(n):
         fam = "mixed" if i % 4 < 2 else ("drops" if i % 4 == 2 else "budget")
         cases.append(gen_case(rng, fam))
-    for _ in range(env.budget(500, 10000)):
+    for _ in range(env.budget(350, 6000)):
         cases.append(gen_raw_case(rng))
 
     ops: list[str] = []
@@ -495,7 +495,7 @@ def run(env: Env) -> Outcome:
     # ---- framing alone: the body the real endpoint produces vs the model's rendering
     ops2: list[str] = []
     impl2: list[str] = []
-    for _ in range(env.budget(300, 5000)):
+    for _ in range(env.budget(200, 3000)):
         evs, status = gen_events(rng)
         case = {"events": evs, "status": status, "hb": 5.0 if rng.random() < 0.4 else None}
         seqs = [e["seq"] for e in evs]
